@@ -68,7 +68,7 @@ try:
     if ok:
         out.mkdir(parents=True, exist_ok=True)
         # store the patch as it applies to the current tree
-        (out / 'patch.diff').write_text(sh(f'git -C {wt} diff -- lazy_dataset').stdout)
+        (out / 'patch.diff').write_text(sh(f'git -C {wt} diff HEAD -- lazy_dataset').stdout)  # HEAD: a 3-way apply stages its result
         shutil.copy(src / 'demo.py', out / 'demo.py')
         if (src / 'notes.md').exists():
             shutil.copy(src / 'notes.md', out / 'notes.md')
